@@ -187,6 +187,14 @@ class BoundTemplate:
                 except StopRender:
                     break
                 except LiquidError as err:
+                    if isinstance(err, ContextDepthError) and (
+                        partial or context.template is not self
+                    ):
+                        # Unwind the whole recursion and let the root template deal
+                        # with it. If every level carried on with its next node, a
+                        # partial that renders itself twice would do 2^depth work
+                        # in lax mode.
+                        raise
                     # Raise or warn according to the current mode.
                     self.env.error(err, token=node.token)
 
@@ -222,6 +230,14 @@ class BoundTemplate:
                 except StopRender:
                     break
                 except LiquidError as err:
+                    if isinstance(err, ContextDepthError) and (
+                        partial or context.template is not self
+                    ):
+                        # Unwind the whole recursion and let the root template deal
+                        # with it. If every level carried on with its next node, a
+                        # partial that renders itself twice would do 2^depth work
+                        # in lax mode.
+                        raise
                     # Raise or warn according to the current mode.
                     self.env.error(err, token=node.token)
 
